@@ -27,6 +27,7 @@
 #include <morfuse/Common/membuf.h>
 #include <morfuse/Common/OutputInfo.h>
 #include "lineio.h"
+#include <algorithm>
 
 #include <sstream>
 #include <map>
@@ -258,6 +259,16 @@ int main()
                     g_ctx->GetDirector().ExecuteThread(g_ctx->GetDirector().GetProgramScript("m"), ev1, "prog");
                 } catch (const std::exception& e) {
                     outcome = excKind(e);
+                }
+                if (std::find(t.begin(), t.end(), std::string("late")) != t.end() && outcome == "ok") {
+                    // the program yielded first (`wait 0.125`): the runaway part runs in a thread that the
+                    // scheduler resumes (ScriptContext::Execute -> ExecuteRunning -> Resume), not in a host call
+                    try {
+                        g_clock += 125;
+                        g_ctx->Execute();
+                    } catch (const std::exception& e) {
+                        outcome = excKind(e);
+                    }
                 }
                 g_clockStep = 0;
                 const bool cur = g_ctx->GetDirector().CurrentThread() != nullptr;
